@@ -245,6 +245,8 @@ pub fn scenarios(thorough: bool) -> Vec<Scenario> {
         &[Op::Resolve(1, 0, 0), Op::Resolve(1, 0, 1), Op::Unstage(1)]));
     v.push(trio_scenario("trio", if thorough { 7 } else { 5 }));
     v.push(trio_merge_scenario("trio-merge", if thorough { 3 } else { 2 }, &[]));
+    // replica 1 lacks the tenth and eleventh commit of replica 0 (block indexes 10 and 11)
+    v.push(many_commits_scenario("pair-many-commits", if thorough { 3 } else { 2 }, &[]));
     v
 }
 
